@@ -1022,3 +1022,31 @@ M('C20-twin-reorder-flag-blocks', 'C20', PPL,
   "        if self.flags & self.FLAG_REL_X:\n            target.x += self.x\n        else:\n            target.x = self.x\n\n        if self.flags & self.FLAG_REL_Y:\n            target.y += self.y\n        else:\n            target.y = self.y\n",
   "        if self.flags & self.FLAG_REL_Y:\n            target.y += self.y\n        else:\n            target.y = self.y\n\n        if self.flags & self.FLAG_REL_X:\n            target.x += self.x\n        else:\n            target.x = self.x\n",
   expect='silent')
+
+# ------------------------------------------------ twins added after seeding
+_COUNTER_OLD = "            packet_data.send(stream.read(length))\n            # Ensure we read all the packet\n            while len(packet_data.get_writable()) < length:\n                data = stream.read(length - len(packet_data.get_writable()))\n                if len(data) < 1:\n                    raise EOFError(\"Unexpected end of message.\")\n                packet_data.send(data)"
+_COUNTER_NEW = "            data = stream.read(length)\n            packet_data.send(data)\n            received = len(data)\n            while received < length:\n                data = stream.read(length - received)\n                if len(data) < 1:\n                    raise EOFError(\"Unexpected end of message.\")\n                received += len(data)\n                packet_data.send(data)"
+M('C01-twin-running-counter', 'C01', CONN, _COUNTER_OLD, _COUNTER_NEW, expect='silent')
+M('C15-twin-running-counter', 'C15', CONN, _COUNTER_OLD, _COUNTER_NEW, expect='silent')
+M('C15-counter-tests-total', 'C15', CONN, _COUNTER_OLD,
+  _COUNTER_NEW.replace("                if len(data) < 1:\n                    raise EOFError(\"Unexpected end of message.\")\n                received += len(data)",
+                       "                received += len(data)\n                if received < 1:\n                    raise EOFError(\"Unexpected end of message.\")"),
+  rule='R15.1')
+M('C01-counter-not-incremented', 'C01', CONN, _COUNTER_OLD,
+  _COUNTER_NEW.replace("                received += len(data)\n", ""), expect='violation')
+M('C14-twin-snapshot-list', 'C14', CONN, "        for handler, exc_types in self._exception_handlers:",
+  "        for handler, exc_types in list(self._exception_handlers):", expect='silent')
+M('C20-twin-own-dict-cache', 'C20', TUTIL,
+  "    def _all_slots(cls):\n        for supcls in reversed(cls.__mro__):",
+  "    def _all_slots(cls):\n        cached = cls.__dict__.get('_slots_cache')\n        if cached is not None:\n            return iter(cached)\n        for supcls in reversed(cls.__mro__):",
+  expect='silent')
+M('C11-twin-limit-before-read', 'C11', CONN,
+  "            while num_packets < 50 and not self.interrupt:\n                packet = self.connection.reactor.read_packet(",
+  "            while not self.interrupt:\n                if num_packets >= 50:\n                    break\n                packet = self.connection.reactor.read_packet(",
+  expect='silent')
+M('C13-twin-dedupe-exact', 'C13', LISTENER,
+  "            if issubclass(arg, Packet):\n                self.packets_to_listen.append(arg)",
+  "            if issubclass(arg, Packet):\n                self.packets_to_listen.append(arg)\n        self.packets_to_listen = list(dict.fromkeys(self.packets_to_listen))",
+  expect='silent')
+M('C10-twin-str-message', 'C10', CONN, "                msg = json.loads(packet.json_data)['text']",
+  "                msg = str(json.loads(packet.json_data)['text'])", expect='silent')
